@@ -8,8 +8,8 @@ from .. import base, gen
 from ..base import Violation
 from . import common
 
-RULE = ("cases: (planar graph, trace of >= 2 points, any configuration incl. widths and non-emitting states, strictly increasing "
-        "cut points 1-4); non-trivial = >= 2 calls and a non-empty result; classes: early stop, width, non-emitting state on the "
+RULE = ("cases: (planar graph, trace of >= 2 points, any configuration incl. widths and non-emitting states, non-decreasing "
+        "cut points 1-5, repeats allowed = continuation calls without a new observation); non-trivial = >= 2 calls and a non-empty result; classes: early stop, width, non-emitting state on the "
         "path, cut right after the matched prefix; distinct = case JSON")
 ASSUMPTIONS = ["planar metric, InMemMap; graphs <= 12 nodes, traces <= 12 points",
                "a different best path is accepted only when both paths have the same probability (1e-12 relative: an exact tie)"]
